@@ -82,4 +82,48 @@ theorem src_offset_mod_rs_fn_timestamp_nanos : C02_src_offset_mod_rs_fn_timestam
 theorem src_offset_mod_rs_fn_timestamp_opt : C02_src_offset_mod_rs_fn_timestamp_opt =
     ["&", "self", "v1", "i64", "v2", "u32", "->", "MappedLocalTime", "<", "DateTime", "<", "Self", ">>", "match", "DateTime", "from_timestamp(", "v1", "v2", "Some(", "v3", "=>", "MappedLocalTime", "Single(", "self", "from_utc_datetime(", "&", "v3", "naive_utc(", "None", "=>", "MappedLocalTime", "None"] := by decide +kernel
 
+/-- callee src/datetime/mod.rs:fn from_naive_utc_and_offset -/
+theorem callee_src_datetime_mod_rs_fn_from_naive_utc_and_offset : C02_callee_src_datetime_mod_rs_fn_from_naive_utc_and_offset =
+    ["v1", "NaiveDateTime", "v2", "Tz", "Offset", "->", "DateTime", "<", "Tz", ">", "DateTime", "v1", "v2"] := by decide +kernel
+
+/-- callee src/naive/date/mod.rs:fn cycle_to_yo -/
+theorem callee_src_naive_date_mod_rs_fn_cycle_to_yo : C02_callee_src_naive_date_mod_rs_fn_cycle_to_yo =
+    ["v1", "u32", "->", "u32", "u32", "v2", "v1", "/", "365", "v3", "v1", "%", "365", "v4", "YEAR_DELTAS", "v2", "as", "usize", "as", "u32", "if", "v3", "<", "v4", "v2", "-=", "1", "v3", "+=", "365", "-", "YEAR_DELTAS", "v2", "as", "usize", "as", "u32", "else", "v3", "-=", "v4", "v2", "v3", "+", "1"] := by decide +kernel
+
+/-- callee src/naive/date/mod.rs:fn from_num_days_from_ce_opt -/
+theorem callee_src_naive_date_mod_rs_fn_from_num_days_from_ce_opt : C02_callee_src_naive_date_mod_rs_fn_from_num_days_from_ce_opt =
+    ["v1", "i32", "->", "Option", "<", "NaiveDate", ">", "v1", "try_opt!(", "v1", "checked_add(", "365", "v2", "v1", "div_euclid(", "146097", "v3", "v1", "rem_euclid(", "146097", "let(", "v4", "v5", "cycle_to_yo(", "v3", "as", "u32", "v6", "YearFlags", "from_year_mod_400(", "v4", "as", "i32", "NaiveDate", "from_ordinal_and_flags(", "v2", "*", "400", "+", "v4", "as", "i32", "v5", "v6"] := by decide +kernel
+
+/-- callee src/naive/date/mod.rs:fn from_ordinal_and_flags -/
+theorem callee_src_naive_date_mod_rs_fn_from_ordinal_and_flags : C02_callee_src_naive_date_mod_rs_fn_from_ordinal_and_flags =
+    ["v1", "i32", "v2", "u32", "v3", "YearFlags", "->", "Option", "<", "NaiveDate", ">", "if", "v1", "<", "MIN_YEAR", "||", "v1", ">", "MAX_YEAR", "return", "None", "if", "v2", "==", "0", "||", "v2", ">", "366", "return", "None", "debug_assert!(", "YearFlags", "from_year(", "v1", "==", "v3", "v4", "v1", "<<", "13", "|", "v2", "<<", "4", "as", "i32", "|", "v3", "as", "i32", "match", "v4", "&", "OL_MASK", "<=", "MAX_OL", "true", "=>", "Some(", "NaiveDate", "from_yof(", "v4", "false", "=>", "None"] := by decide +kernel
+
+/-- callee src/naive/datetime/mod.rs:fn and_utc -/
+theorem callee_src_naive_datetime_mod_rs_fn_and_utc : C02_callee_src_naive_datetime_mod_rs_fn_and_utc =
+    ["&", "self", "->", "DateTime", "<", "Utc", ">", "DateTime", "from_naive_utc_and_offset(", "*", "self", "Utc"] := by decide +kernel
+
+/-- callee src/naive/internals.rs:fn from_year -/
+theorem callee_src_naive_internals_rs_fn_from_year : C02_callee_src_naive_internals_rs_fn_from_year =
+    ["v1", "i32", "->", "YearFlags", "v1", "v1", "rem_euclid(", "400", "YearFlags", "from_year_mod_400(", "v1"] := by decide +kernel
+
+/-- callee src/naive/internals.rs:fn from_year_mod_400 -/
+theorem callee_src_naive_internals_rs_fn_from_year_mod_400 : C02_callee_src_naive_internals_rs_fn_from_year_mod_400 =
+    ["v1", "i32", "->", "YearFlags", "YEAR_TO_FLAGS", "v1", "as", "usize"] := by decide +kernel
+
+/-- callee src/naive/time/mod.rs:fn from_num_seconds_from_midnight_opt -/
+theorem callee_src_naive_time_mod_rs_fn_from_num_seconds_from_midnight_opt : C02_callee_src_naive_time_mod_rs_fn_from_num_seconds_from_midnight_opt =
+    ["v1", "u32", "v2", "u32", "->", "Option", "<", "NaiveTime", ">", "if", "v1", ">=", "86400", "||", "v2", ">=", "2000000000", "||", "v2", ">=", "1000000000", "&&", "v1", "%", "60", "!=", "59", "return", "None", "Some(", "NaiveTime", "v1", "v3", "v2"] := by decide +kernel
+
+/-- callee src/offset/fixed.rs:fn east_opt -/
+theorem callee_src_offset_fixed_rs_fn_east_opt : C02_callee_src_offset_fixed_rs_fn_east_opt =
+    ["v1", "i32", "->", "Option", "<", "FixedOffset", ">", "if", "-", "86400", "<", "v1", "&&", "v1", "<", "86400", "Some(", "FixedOffset", "v2", "v1", "else", "None"] := by decide +kernel
+
+/-- callee src/offset/mod.rs:fn from_utc_datetime -/
+theorem callee_src_offset_mod_rs_fn_from_utc_datetime : C02_callee_src_offset_mod_rs_fn_from_utc_datetime =
+    ["&", "self", "v1", "&", "NaiveDateTime", "->", "DateTime", "<", "Self", ">", "DateTime", "from_naive_utc_and_offset(", "*", "v1", "self", "offset_from_utc_datetime(", "v1"] := by decide +kernel
+
+/-- callee src/time_delta.rs:fn subsec_nanos -/
+theorem callee_src_time_delta_rs_fn_subsec_nanos : C02_callee_src_time_delta_rs_fn_subsec_nanos =
+    ["&", "self", "->", "i32", "if", "self", "v1", "<", "0", "&&", "self", "v2", ">", "0", "self", "v2", "-", "NANOS_PER_SEC", "else", "self", "v2"] := by decide +kernel
+
 end Chrono.Pins.C02
